@@ -9,6 +9,7 @@ from opensquirrel.ir import (
     Measure,
     Qubit,
     Reset,
+    Statement,
 )
 from opensquirrel.mapper.mapping import Mapping
 
@@ -31,52 +32,77 @@ class _QubitRemapper(IRVisitor):
 
     def __init__(self, mapping: Mapping) -> None:
         self.mapping = mapping
+        # Qubit objects that were already remapped; an object reachable twice (a statement occurring twice in the IR,
+        # a target gate shared by two controlled gates) must be remapped once.
+        self._remapped_qubits: dict[int, Qubit] = {}
 
     def visit_comment(self, comment: Comment) -> Comment:
         return comment
 
     def visit_qubit(self, qubit: Qubit) -> Qubit:
-        qubit.index = self.mapping[qubit.index]
+        if id(qubit) not in self._remapped_qubits:
+            qubit.index = self.mapping[qubit.index]
+            self._remapped_qubits[id(qubit)] = qubit
         return qubit
+
+    def _visit_arguments(self, statement: Statement) -> None:
+        # The arguments of a named instruction hold their own Qubit objects; writers and exporters read those.
+        for argument in getattr(statement, "arguments", None) or ():
+            if isinstance(argument, Qubit):
+                argument.accept(self)
 
     def visit_reset(self, reset: Reset) -> Reset:
         reset.qubit.accept(self)
+        self._visit_arguments(reset)
         return reset
 
     def visit_measure(self, measure: Measure) -> Measure:
         measure.qubit.accept(self)
+        self._visit_arguments(measure)
         return measure
 
     def visit_bloch_sphere_rotation(self, g: BlochSphereRotation) -> BlochSphereRotation:
         g.qubit.accept(self)
+        self._visit_arguments(g)
         return g
 
     def visit_matrix_gate(self, g: MatrixGate) -> MatrixGate:
         for op in g.operands:
             op.accept(self)
+        self._visit_arguments(g)
         return g
 
     def visit_controlled_gate(self, controlled_gate: ControlledGate) -> ControlledGate:
         controlled_gate.control_qubit.accept(self)
         controlled_gate.target_gate.accept(self)
+        self._visit_arguments(controlled_gate)
         return controlled_gate
 
 
-def get_remapped_ir(circuit: Circuit, mapping: Mapping) -> IR:
+def _check_mapping_covers_circuit(circuit: Circuit, mapping: Mapping) -> None:
     if len(mapping) > circuit.qubit_register_size:
         msg = "mapping is larger than the qubit register size"
         raise ValueError(msg)
-    qubit_remapper = _QubitRemapper(mapping)
-    replacement_ir = circuit.ir
-    for statement in replacement_ir.statements:
-        statement.accept(qubit_remapper)
-    return replacement_ir
+    mapped_qubit_indices = set(mapping.keys())
+    for statement in circuit.ir.statements:
+        if isinstance(statement, Comment):
+            continue
+        qubits = list(statement.get_qubit_operands())  # type: ignore[attr-defined]
+        qubits += [argument for argument in getattr(statement, "arguments", None) or () if isinstance(argument, Qubit)]
+        for qubit in qubits:
+            if qubit.index not in mapped_qubit_indices:
+                # Checked before anything is remapped, so that a failing call leaves the circuit untouched.
+                msg = f"mapping does not cover qubit index {qubit.index}"
+                raise KeyError(msg)
+
+
+def get_remapped_ir(circuit: Circuit, mapping: Mapping) -> IR:
+    remap_ir(circuit, mapping)
+    return circuit.ir
 
 
 def remap_ir(circuit: Circuit, mapping: Mapping) -> None:
-    if len(mapping) > circuit.qubit_register_size:
-        msg = "mapping is larger than the qubit register size"
-        raise ValueError(msg)
+    _check_mapping_covers_circuit(circuit, mapping)
     qubit_remapper = _QubitRemapper(mapping)
     for statement in circuit.ir.statements:
         statement.accept(qubit_remapper)
